@@ -1145,6 +1145,39 @@ def check_c14(c, result):
                 result.violations.append(payload_replay('C14', 'a rule file gives other results when its query is re-wrapped (%s; ci)' % name, [one, body],
                                                         'one line: %s results; re-wrapped: %s' % (len(ref) if ref is not None else 'error', len(goti) if goti is not None else 'error'), c.files))
                 break
+    # `scan` on rule files whose identifiers BEGIN like keywords (an alias FROMmethod, a predicate predicateIsPublic, an
+    # alias WHEREabouts / SELECTed / ASx) with a line break directly before them, after the FROM line: one query per
+    # file, the same answer as the one-line layout
+    k0 = next((k for k in ('method_declaration', 'class_declaration') if c.vocab.get(k)), None)
+    if k0:
+        base_rules = []
+        for al, pn in (('FROMmethod', 'predicateIsPublic'), ('predicateX', 'FROMhere'), ('WHEREabouts', 'SELECTed'), ('ASx', 'INside'), ('m', 'p')):
+            toks = ['predicate', pn, '(', k0, 'y', ')', '{', 'y', '.', 'getName', '(', ')', '!=', '"zz"', '}', 'FROM', k0, 'AS', al, 'WHERE', pn, '(', al, ')', '&&', al, '.', 'getName', '(', ')', '!=', '"q"', 'SELECT', al, '.', 'getName', '(', ')']
+            one = ' '.join(toks)
+            lays = [one]
+            for bi in range(1, len(toks)):
+                if toks[bi] in (al, pn, 'FROM', 'predicate') or toks[bi - 1] in ('FROM', 'AS', 'WHERE', '&&', 'SELECT'):
+                    lays.append(' '.join(toks[:bi]) + '\n' + ' '.join(toks[bi:]))
+            lays.append('\n'.join(toks))
+            base_rules.append((one, lays))
+        srules, ref = [], []
+        for bi_, (one, lays) in enumerate(base_rules):
+            for li_, lay in enumerate(lays):
+                srules.append(('k%02d_%02d.cql' % (bi_, li_), lay))
+                ref.append(bi_ * 100)
+        got = scan_ruleset(c, srules, 'c14')
+        c.stats['c14_scan_rule_files'] = len(srules)
+        if got is None:
+            result.violations.append(payload_replay('C14', '`scan` did not answer every rule file (identifiers beginning like keywords, broken before them)', [q for _, q in srules][:8], 'pathfinder scan --project D --ruleset R', c.files))
+        else:
+            first = {}
+            for (nm, q), g_ in zip(srules, got):
+                b_ = nm[:3]
+                first.setdefault(b_, g_)
+                if g_ != first[b_]:
+                    result.violations.append(payload_replay('C14', 'a rule file run by `scan` gives other results when its query is broken before an identifier that begins like a keyword',
+                                                            [srules[[n_ for n_, _ in srules].index(b_ + '_00.cql')][1], q], 'one line: %s results; this layout: %s' % (sum(first[b_].values()) if first[b_] is not None else 'error', sum(g_.values()) if g_ is not None else 'error'), c.files))
+                    break
     c.samples += [tq[1][1], tq[2][1]]
 
 
